@@ -69,12 +69,17 @@ OpenUnit(k) ==
   /\ UNCHANGED closed /\ Same
 
 \* SUBMODULE (parent) name: the parent's entities are accessible by host association
+\* SUBMODULE (root:parent) name: the parent is itself a submodule (of a module); `root` is that module
+ClosedSubmodulesOfModules == {x \in closed : x.kind = "submodule" /\ x.depth = 1 /\ \E m \in x.uses : m[1] = "module"}
 OpenSubmodule(par) ==
   /\ Bounded /\ Depth = 0 /\ "submodule" \in UnitKinds
-  /\ par \in {c.name : c \in {x \in closed : x.kind = "module" /\ x.depth = 1}}
-  /\ stack' = Append(stack, [kind |-> "submodule", name |-> Name("submodule"), sline |-> Line, phase |-> 0,
-                              implicitNone |-> FALSE, nproc |-> 0, needProc |-> FALSE, nbody |-> 0, uses |-> {par}])
-  /\ Emit([op |-> "open", kind |-> "submodule", name |-> Name("submodule"), parent |-> par])
+  /\ par \in {c.name : c \in {x \in closed : x.kind = "module" /\ x.depth = 1}} \cup {x.name : x \in ClosedSubmodulesOfModules}
+  /\ LET root == IF par[1] = "module" THEN <<>>
+                 ELSE CHOOSE m \in (CHOOSE x \in ClosedSubmodulesOfModules : x.name = par).uses : m[1] = "module"
+     IN /\ stack' = Append(stack, [kind |-> "submodule", name |-> Name("submodule"), sline |-> Line, phase |-> 0,
+                                    implicitNone |-> FALSE, nproc |-> 0, needProc |-> FALSE, nbody |-> 0,
+                                    uses |-> IF root = <<>> THEN {par} ELSE {par, root}])
+        /\ Emit([op |-> "open", kind |-> "submodule", name |-> Name("submodule"), parent |-> par, root |-> root])
   /\ UNCHANGED closed /\ Same
 
 ClosedModules == {c.name : c \in {x \in closed : x.kind = "module" /\ x.depth = 1}}
@@ -317,7 +322,7 @@ OverlongLine ==
 
 ValidStmt ==
   \/ \E k \in Units : OpenUnit(k)
-  \/ \E m \in ClosedModules : OpenSubmodule(m)
+  \/ \E m \in ClosedModules \cup {x.name : x \in ClosedSubmodulesOfModules} : OpenSubmodule(m)
   \/ \E m \in ClosedModules : UseStmt(m)
   \/ ImplicitNone \/ Decl \/ OpenType \/ TypeContains \/ Binding
   \/ \E t \in TypesVisible : DeclTyped(t)
@@ -374,7 +379,7 @@ ProcFocus == \/ \E k \in {"module", "program"} : OpenUnit(k)
 SpecProcs == Init /\ [][ProcFocus]_vars
 \* focus generator: submodules using what their parent module declares
 SubmodFocus == \/ OpenUnit("module") \/ OpenType \/ End("kind") \/ End("kindName")
-               \/ \E m \in ClosedModules : OpenSubmodule(m)
+               \/ \E m \in ClosedModules \cup {x.name : x \in ClosedSubmodulesOfModules} : OpenSubmodule(m)
                \/ \E t \in TypesVisible : DeclTyped(t)
                \/ ContainsStmt \/ OpenProc("sub") \/ Decl
 SpecSubmod == Init /\ [][SubmodFocus]_vars
